@@ -1,4 +1,4 @@
-/*
+/* WIP -- NOT REGISTERED in spec.py: at the enforced minimum undo block size (1024) the query needs > 10 GB (see spec.py META.outside).
  * C12/reopen: try_reopen_undo_file() on an undo file built by an independent
  * writer of the format (pattern D), at the REAL minimum undo block size 1024
  * (E2UNDO_MIN_BLOCK_SIZE is enforced by the code under test).
